@@ -11,8 +11,10 @@ themselves (hyper/reqwest, libcurl, ureq: HTTP/1.1 framing, sockets, timing) are
 The theorems `glue_*` below do NOT depend on `lib`: they hold for whatever the engine returns.
 
 `Version.fixed` = tree with fixes/F4-ureq-status.patch; `Version.pinned` = pinned tree, on which
-the full statement is false for ureq (finding F4): see `C09_transparent_partial` and
-`C09_pinned_not_transparent`.
+the full reply clause is false for ureq (finding F4): see `C09_transparent_partial` and
+`C09_pinned_not_transparent`.  The full fault clause `FaultsSurface` is false for ureq with either
+version (finding F6, a ureq 2.x engine behaviour): see `C09_faults_partial`,
+`C09_ureq_not_faults_surface`.
 -/
 namespace C09
 open Adapter
@@ -117,9 +119,11 @@ theorem C09_same_class_partial {κ : Type} (classify : Outcome → κ) (a : Id) 
     classify (adapter .pinned a (.inl r)) = classify (inMemory r) := by
   rw [C09_transparent_partial a r wf hx]; rfl
 
-/-- Faults surface as an error value, through every adapter and both versions: never a success
-(in particular never a silently shortened one), and the glue has no panicking path. -/
-theorem lib_fault (a : Id) (f : Fault) :
+/-- The full-strength fault clause for glue version `v` and adapter `a`: every fault surfaces as an
+error value, never a success (in particular never a silently shortened one). -/
+def FaultsSurface (v : Version) (a : Id) : Prop := ∀ f : Fault, ∃ e, adapter v a (.inr f) = .error e
+
+theorem lib_fault (a : Id) (f : Fault) (hx : ¬ (a = .ureq ∧ f.isTruncatedChunked = true)) :
     lib a (.inr f) = .transportErr ∨ ∃ h, lib a (.inr f) = .ok h none ∨ lib a (.inr f) = .statusErr h none := by
   cases f with
   | truncatedBody h =>
@@ -130,24 +134,67 @@ theorem lib_fault (a : Id) (f : Fault) :
     · by_cases hs : 400 ≤ h.status
       · exact .inr ⟨h, .inr (by simp [lib, hs])⟩
       · exact .inr ⟨h, .inl (by simp [lib, hs])⟩
+  | truncatedChunked h rec =>
+    cases a
+    · exact .inr ⟨h, .inl rfl⟩
+    · exact .inr ⟨h, .inl rfl⟩
+    · exact .inl rfl
+    · exact absurd ⟨rfl, rfl⟩ hx
   | refused => exact .inl rfl
   | closedBeforeReply => exact .inl rfl
   | garbageStatusLine => exact .inl rfl
 
-theorem C09_faults (v : Version) (a : Id) (f : Fault) : ∃ e, adapter v a (.inr f) = .error e := by
+/-- Faults surface as an error value — never a success, in particular never a silently shortened
+one, and the glue has no panicking path — through every adapter and both glue versions, EXCLUDING
+(ureq, chunked reply cut inside a chunk): there the ureq 2.x engine itself reports a normal end of
+body (finding F6, see `C09_ureq_truncated_chunked_shortened`). -/
+theorem C09_faults_partial (v : Version) (a : Id) (f : Fault) (hx : ¬ (a = .ureq ∧ f.isTruncatedChunked = true)) :
+    ∃ e, adapter v a (.inr f) = .error e := by
   unfold adapter
-  rcases lib_fault a f with h | ⟨h, h1 | h1⟩
+  rcases lib_fault a f hx with h | ⟨h, h1 | h1⟩
   · rw [h]; exact (glue_error v a ⟨0, none⟩).1
   · rw [h1]; exact (glue_error v a h).2.1
   · rw [h1]; exact (glue_error v a h).2.2
 
+/-- Full strength for the three adapters other than ureq. -/
+theorem C09_faults (v : Version) (a : Id) (ha : a ≠ .ureq) : FaultsSurface v a :=
+  fun f => C09_faults_partial v a f (fun h => ha h.1)
+
+/-- F6, general form: through the ureq adapter a chunked 2xx/3xx reply cut inside a chunk comes
+back as a SUCCESS carrying only the bytes received so far (both glue versions: the glue cannot
+tell, the engine reports a normal end of body). -/
+theorem C09_ureq_truncated_chunked_shortened (v : Version) (h : Head) (rec : Bytes)
+    (hs : statusOk h.status = true) (hc : ctOk h.contentType = true) (h4 : ¬ 400 ≤ h.status) :
+    adapter v .ureq (.inr (.truncatedChunked h rec)) = .ok ⟨h.status, h.contentType, rec⟩ := by
+  simp only [adapter, lib, h4, ↓reduceIte]
+  exact glue_ok v .ureq h rec hs hc
+
+/-- the F6 witness: `{"access_token":"at-12345","tok` — 31 of the body's bytes, then the connection closes -/
+def f6Witness : Fault :=
+  .truncatedChunked ⟨200, some (Form.lit "application/json")⟩ (Form.lit "{\"access_token\":\"at-12345\",\"tok")
+
+/-- The full fault clause is FALSE for ureq (with either glue version). -/
+theorem C09_ureq_not_faults_surface (v : Version) : ¬ FaultsSurface v .ureq := by
+  intro h
+  obtain ⟨e, he⟩ := h f6Witness
+  rw [f6Witness, C09_ureq_truncated_chunked_shortened v _ _ (by decide) (by decide) (by decide)] at he
+  cases he
+
 /-- No success is ever shorter than (or otherwise different from) what the server sent: if an
-adapter returns `Ok`, the input was a complete reply and the result is exactly that reply. -/
-theorem C09_success_exact (v : Version) (a : Id) (x : WireReply ⊕ Fault) (resp : Response)
-    (h : adapter v a x = .ok resp) : ∃ r, x = .inl r ∧ resp = respOf r := by
+adapter returns `Ok`, the input was a complete reply and the result is exactly that reply —
+again excluding (ureq, chunked reply cut inside a chunk). -/
+theorem C09_success_exact_partial (v : Version) (a : Id) (x : WireReply ⊕ Fault) (resp : Response)
+    (h : adapter v a x = .ok resp) :
+    (∃ r, x = .inl r ∧ resp = respOf r) ∨ (a = .ureq ∧ ∃ hd rec, x = .inr (.truncatedChunked hd rec)) := by
   cases x with
-  | inr f => obtain ⟨e, he⟩ := C09_faults v a f; rw [he] at h; cases h
+  | inr f =>
+    by_cases hx : a = .ureq ∧ f.isTruncatedChunked = true
+    · right
+      refine ⟨hx.1, ?_⟩
+      cases f <;> simp_all [Fault.isTruncatedChunked]
+    · obtain ⟨e, he⟩ := C09_faults_partial v a f hx; rw [he] at h; cases h
   | inl r =>
+    left
     refine ⟨r, rfl, ?_⟩
     rcases glue_success_exact v a _ resp h with h1 | ⟨_, _, h1⟩ <;>
       (cases a <;> simp only [lib, headOf] at h1 <;> (try split at h1) <;>
@@ -203,6 +250,8 @@ example : adapter .fixed .curl (.inl ⟨302, none, []⟩) = .ok ⟨302, none, []
 example : adapter .pinned .ureq (.inr (.truncatedBody ⟨200, none⟩)) = .error .io := by decide
 example : adapter .fixed .ureq (.inr (.truncatedBody ⟨400, none⟩)) = .error .io := by decide
 example : adapter .fixed .curl (.inr (.truncatedBody ⟨200, none⟩)) = .error .lib := by decide
+example : adapter .fixed .reqwestBlocking (.inr f6Witness) = .error .io := by decide
+example : adapter .pinned .curl (.inr f6Witness) = .error .lib := by decide
 example : sent .curl ⟨.post, [], [(Form.lit "authorization", [0x80])], []⟩ = .error .other := by decide
 
 end C09
@@ -216,7 +265,10 @@ end C09
 #print axioms C09.C09_pinned_not_transparent
 #print axioms C09.C09_same_class
 #print axioms C09.C09_same_class_partial
+#print axioms C09.C09_faults_partial
 #print axioms C09.C09_faults
-#print axioms C09.C09_success_exact
+#print axioms C09.C09_ureq_truncated_chunked_shortened
+#print axioms C09.C09_ureq_not_faults_surface
+#print axioms C09.C09_success_exact_partial
 #print axioms C09.C09_request
 #print axioms C09.C09_request_of_build
